@@ -365,7 +365,36 @@ def run(ctx):
         n += run_family(ctx, 'ME_d3_ad', 3, ['a', 'default'], [0], 1500)
         n += run_family(ctx, 'ME_d3_ab', 3, ['a', 'b'], [1], 1500, type_annots=True)
     ctx.extra['types'] = n
+    duplicate_names(ctx)
     ctx.exhaustive = True
+
+
+DUPLICATES = [{'prim': 'or', 'args': [{'prim': 'int', 'annots': ['%a']}, {'prim': 'nat', 'annots': ['%a']}]},
+              {'prim': 'or', 'args': [{'prim': 'or', 'args': [{'prim': 'int', 'annots': ['%a']}, {'prim': 'string'}]}, {'prim': 'nat', 'annots': ['%a']}]},
+              {'prim': 'or', 'args': [{'prim': 'or', 'annots': ['%a'], 'args': [{'prim': 'int'}, {'prim': 'string'}]}, {'prim': 'nat', 'annots': ['%a']}]}]
+
+
+def duplicate_names(ctx):
+    """A type in which two branches carry the same entrypoint name is not a parameter type for Tezos (it is outside the model's universe).
+    Refusing it is right; what must not happen is that it is accepted and a value then comes back as another value."""
+    from pytezos.michelson.sections.parameter import ParameterSection
+    for tj in DUPLICATES:
+        vals = [{'prim': 'Right', 'args': [{'int': '2'}]}, {'prim': 'Left', 'args': [{'int': '1'}] if tj['args'][0]['prim'] == 'int' else [{'prim': 'Left', 'args': [{'int': '1'}]}]}]
+        for v in vals:
+            ctx.count(('dup', json.dumps(tj), json.dumps(v)), nontrivial=True)
+            try:
+                sec = ParameterSection.match({'prim': 'parameter', 'args': [tj]})
+                obj = sec.from_micheline_value(v)
+                params = obj.to_parameters()
+            except Exception:   # noqa: refused, as Tezos does
+                continue
+            try:
+                back = sec.from_parameters(params).to_micheline_value()
+            except Exception as e:   # noqa
+                back = 'raises %r' % e
+            if back != v:
+                ctx.mismatch('C13:duplicate-entrypoint-name:accepted-and-value-changes', 'parameter %s (two branches named %%a; Tezos refuses it) is accepted, and the value %s goes to the pair %s, which comes back as %s' % (
+                    json.dumps(tj), json.dumps(v), json.dumps(params), json.dumps(back) if not isinstance(back, str) else back), {'kind': 'dup'})
 
 
 def replay(ctx, rep):
